@@ -83,13 +83,6 @@ class LasAppender:
         if not points:
             return
 
-        if self.header.point_count == 0:
-            # The mins and maxs of an empty file are zeros,
-            # they must not take part in the min/max of the appended points
-            f64info = np.finfo(np.float64)
-            self.header.maxs = np.ones(3, dtype=np.float64) * f64info.min
-            self.header.mins = np.ones(3, dtype=np.float64) * f64info.max
-
         restore_needed = False
         if isinstance(points, ScaleAwarePointRecord) and (
             np.any(points.scales != self.header.scales)
@@ -109,6 +102,14 @@ class LasAppender:
             restore_needed = True
 
         self.points_appender.append_points(points)
+        if self.header.point_count == 0:
+            # The mins and maxs of an empty file are zeros,
+            # they must not take part in the min/max of the appended points
+            # (forgotten only once the points are in the file: a refused or
+            # failed first append leaves the header of the empty file as it was)
+            f64info = np.finfo(np.float64)
+            self.header.maxs = np.ones(3, dtype=np.float64) * f64info.min
+            self.header.mins = np.ones(3, dtype=np.float64) * f64info.max
         self.header.grow(points)
 
         if restore_needed:
